@@ -45,9 +45,18 @@ CHECKS = {
         'inputs meet the new values must be pending (both inclusions: nothing '
         'else may become pending), every release must be justified since the '
         'previous release of that unit, and a failure-free history drained to '
-        'quiescence leaves no justified unit unreleased.',
+        'quiescence leaves no justified unit unreleased. Part e2e: task-only '
+        'generated engines with executable algorithms (each output value is '
+        'a hash of its name, the loaded contents of its declared inputs and '
+        'an epoch) on a real shelve store; root re-runs with epoch bumps are '
+        'interleaved with real executions through worker.Context.run in '
+        'generated order (novelty comes from the real content-addressed '
+        'store); at quiescence the latest stored content of every value on '
+        'every target must equal a from-scratch evaluation of the reference '
+        'graph under the final epochs.',
         'declared inputs from the reference graph; failure-free histories for '
-        'the end-of-history clause; stub database in part law.',
+        'the end-of-history clause; stub database in part law; e2e without '
+        'analyses / regressions / feedback; two known findings listed.',
     ),
     'C03': (
         'pipeline-sim', 'exploration',
@@ -137,7 +146,9 @@ CHECKS = {
         'and schedule.complete under a harness clock; find() is compared '
         'with a brute-force window filter (exact for after/before windows, '
         'validity form for truncation) and the journal files are re-read '
-        'with plain json for the lost/duplicated-entry clause.',
+        'with plain json for the lost/duplicated-entry clause. Part pipeline '
+        'runs simulator histories on the real schedule+farm and requires '
+        'exactly one journal entry per delivered reply.',
         'UTC-aware bounds; after+limit without before only weakly checked '
         '(unspecified by the property).',
     ),
